@@ -216,6 +216,20 @@ func c12BasicGen(rt *rapid.T) c12BasicCase {
 		case 0: // exactly at / around the bcrypt limit of 72 bytes
 			n := rapid.SampledFrom([]int{71, 72, 72, 73}).Draw(rt, "pw_len")
 			c.Pws = append(c.Pws, string(rapid.SliceOfN(rapid.SampledFrom([]rune("abcXYZ019:")), n, n).Draw(rt, "pw")))
+		case 1, 2: // longer than bcrypt's 72 bytes (73-90 bytes, one in three with two-byte characters): refused at creation or, if accepted, significant to the last byte
+			n := rapid.IntRange(73, 90).Draw(rt, "pw_len")
+			alpha := []rune("abcXYZ019:")
+			if rapid.IntRange(0, 2).Draw(rt, "pw_wide") == 0 {
+				alpha = pwAlpha
+			}
+			long := ""
+			for _, r := range rapid.SliceOfN(rapid.SampledFrom(alpha), n, n).Draw(rt, "pw") {
+				if len(long) >= n {
+					break
+				}
+				long += string(r)
+			}
+			c.Pws = append(c.Pws, long)
 		default:
 			c.Pws = append(c.Pws, string(rapid.SliceOfN(rapid.SampledFrom(pwAlpha), 3, 12).Draw(rt, "pw")))
 		}
@@ -267,7 +281,7 @@ func c12BasicGen(rt *rapid.T) c12BasicCase {
 			if steer && len(regNames) > 0 {
 				op.Name = rapid.SampledFrom(regNames).Draw(rt, "reg_name")
 			}
-			op.PwVar = rapid.SampledFrom([]int{0, 0, 0, 0, 1, 2, 3, 4, 5, 6, 7}).Draw(rt, "pw_var")
+			op.PwVar = rapid.SampledFrom([]int{0, 0, 0, 0, 1, 2, 3, 4, 5, 6, 7, 8, 8, 9, 10}).Draw(rt, "pw_var")
 			op.PwPos = rapid.IntRange(0, 80).Draw(rt, "pw_pos")
 		case "upd":
 			if steer && len(regUsers) > 0 {
@@ -332,9 +346,36 @@ func c12PwVariant(p string, v, pos int) string {
 		return string(rs)
 	case 6:
 		return p + ":" + p
+	case 8, 9, 10:
+		// attempts at a password longer than 72 bytes which share its first 72 bytes and differ afterwards
+		if len(p) <= c12BcryptMax {
+			return c12PwVariant(p, v-7, pos)
+		}
+		head, tail := p[:c12BcryptMax], []byte(p[c12BcryptMax:])
+		switch v {
+		case 8: // same length, one byte behind the limit changed
+			k := ((pos % len(tail)) + len(tail)) % len(tail)
+			if tail[k] == 'q' {
+				tail[k] = 'w'
+			} else {
+				tail[k] = 'q'
+			}
+			return head + string(tail)
+		case 9: // cut at the limit
+			return head
+		default: // another tail
+			alt := fmt.Sprintf("ZZ%d", pos)
+			if alt == string(tail) {
+				alt += "!"
+			}
+			return head + alt
+		}
 	}
 	return p
 }
+
+// bcrypt works on at most 72 bytes of input.
+const c12BcryptMax = 72
 
 type c12BasicEntry struct {
 	uid   uint64
@@ -440,6 +481,9 @@ func c12BasicExec(t *testing.T, c c12BasicCase) (o kit.Outcome) {
 			if len(pw) == 72 {
 				cls["add:72-byte-password"] = true
 			}
+			if len(pw) > c12BcryptMax {
+				cls["add:password-longer-than-72-bytes:accepted"] = true
+			}
 		case "auth":
 			if op.Name < 0 {
 				continue
@@ -469,11 +513,22 @@ func c12BasicExec(t *testing.T, c c12BasicCase) (o kit.Outcome) {
 					cls[fmt.Sprintf("auth:extension-of-72-byte-password:accepted=%v", ok)] = true
 					continue
 				}
+				// A password longer than 72 bytes which was accepted when it was set is the password: an
+				// attempt which shares its first 72 bytes and differs afterwards is a wrong password.
+				sharesHead := len(e.pw) > c12BcryptMax && len(attempt) >= c12BcryptMax && attempt[:c12BcryptMax] == e.pw[:c12BcryptMax]
+				if ok && sharesHead {
+					o.Viol = kit.V("authenticated:long-password-prefix", "step %d: login %q, whose password of %d bytes was accepted when it was set, authenticated with a different password of %d bytes "+
+						"which shares only its first 72 bytes: attempt %q, the password is %q", step, login, len(e.pw), len(attempt), attempt, e.pw)
+					return o
+				}
 				if ok {
 					o.Viol = kit.V("authenticated:wrong-password", "step %d: login %q authenticated with password %q, the password is %q", step, login, attempt, e.pw)
 					return o
 				}
 				cls["auth:wrong-password:refused"] = true
+				if sharesHead {
+					cls["auth:long-password:attempt-sharing-the-first-72-bytes:refused"] = true
+				}
 				if attempt == "" {
 					cls["auth:empty-password:refused"] = true
 				}
@@ -516,6 +571,9 @@ func c12BasicExec(t *testing.T, c c12BasicCase) (o kit.Outcome) {
 				}
 				cur.pw = pw
 				cls["upd:password-changed"] = true
+				if len(pw) > c12BcryptMax {
+					cls["upd:password-longer-than-72-bytes:accepted"] = true
+				}
 			case byLogin[base] != nil:
 				if err == nil {
 					o.Viol = kit.V("duplicate-login-created:rename", "step %d: UpdateRecord renamed %q (uid %d) to %q although %q is registered for uid %d",
@@ -540,6 +598,9 @@ func c12BasicExec(t *testing.T, c c12BasicCase) (o kit.Outcome) {
 				cur.login, cur.spelled, cur.pw = base, login, pw
 				byLogin[base] = cur
 				cls["upd:renamed"] = true
+				if len(pw) > c12BcryptMax {
+					cls["upd:password-longer-than-72-bytes:accepted"] = true
+				}
 			}
 		case "uniq":
 			if op.Name < 0 {
